@@ -318,6 +318,18 @@ def _case(seed: int) -> Dict[str, Any]:
 
         a = {0: a[0], 1: _copy.deepcopy(a[0])}
         nr = 2
+    twins: List[Any] = []
+    if seed % 3 == 1:
+        # two DISTINCT events that agree on name, category, thread, start and duration (two zero-length view operators in the same microsecond):
+        # both are events of the file, both count
+        from hv import synth
+
+        host = [e for e in a[0] if e.get("cat") == "cpu_op" and e.get("dur", 0) >= 5]
+        if host:
+            h = host[len(host) // 2]
+            for _ in range(2):
+                a[0].append(synth.host_op("aten::as_strided", h["ts"] + 1, 0, tid=h["tid"]))
+            twins = a[0][-2:]
     b = {rk: _variant(evs, rng) for rk, evs in a.items()}
     file_names = {"a": {rk: {i: e["name"] for i, e in gen.complete_events(evs)} for rk, evs in a.items()},
                   "b": {rk: {i: e["name"] for i, e in gen.complete_events(evs)} for rk, evs in b.items()}}
@@ -331,6 +343,14 @@ def _case(seed: int) -> Dict[str, Any]:
             lb = rt.lib(fails, "LabeledTrace", inp, LabeledTrace, "A" if same_label else "B", None, db)
         except rt.LibFailure:
             return {"n_checks": 1, "fails": fails, "nontrivial": True}
+
+        if twins:
+            ids = [i for i, e in gen.complete_events(a[0]) if any(e is t_ for t_ in twins)]
+            have = set(int(x) for x in la.t.get_trace(0)["index"])
+            n += 1
+            if len([i for i in ids if i in have]) == 1:
+                fails.append({"what": "events_equal_in_every_field_are_both_events_of_the_trace", "input": inp, "observed": {"twin_event_ids": ids, "loaded": [i for i in ids if i in have]},
+                              "expected": "both or (when trimmed with their step) neither: they start at the same instant on the same thread"})
 
         def summary(lt, ranks, its, dev, short):
             # names are those of the FILE's events (row id = position in the file), not what the loaded frame decodes to
